@@ -225,8 +225,14 @@ func genHelpers(t *rapid.T) hcase {
 		}
 		return c
 	}
+	if rapid.IntRange(0, 3).Draw(t, "kickCycle") == 0 {
+		// removed by the room while no Leave is waiting, joined again on the same
+		// channel, then a Leave the room does not answer
+		c.steps = []hstep{{op: "join", pol: "confirm"}, {op: "kick"}, {op: "rejoin", pol: "confirm", flag: rapid.Bool().Draw(t, "kcflag")}, {op: "leave", pol: rapid.SampledFrom([]string{"silent", "silent", "error", "confirm"}).Draw(t, "kcleave")}}
+		return c
+	}
 	for i := 0; i < n; i++ {
-		st := hstep{op: rapid.SampledFrom([]string{"join", "join", "leave", "rejoin"}).Draw(t, "op")}
+		st := hstep{op: rapid.SampledFrom([]string{"join", "join", "leave", "leave", "rejoin", "kick"}).Draw(t, "op")}
 		st.pol = rapid.SampledFrom([]string{"confirm", "confirm", "confirm", "error", "silent", "error-split"}).Draw(t, "pol")
 		st.flag = rapid.Bool().Draw(t, "flag")
 		// n: what the room sends after the call has returned, while the call's
@@ -632,6 +638,18 @@ func checkHelpers(t interface {
 						return
 					}
 				}
+			case "kick":
+				// the room removes the occupant unasked (no Leave is waiting)
+				cancel()
+				if ch == nil || !ch.Joined() {
+					continue
+				}
+				sv.Feed(`<presence xmlns="` + ns + `" type="unavailable" from="` + room.String() + `"><x xmlns="http://jabber.org/protocol/muc#user"><item affiliation="none" role="none"/><status code="110"/><status code="307"/></x></presence>`)
+				logf("%s: the room removes the occupant (unavailable self-presence, status 307)", what)
+				if !sentinel(what) {
+					return
+				}
+				continue
 			case "leave":
 				if ch == nil || !ch.Joined() {
 					cancel()
@@ -639,9 +657,13 @@ func checkHelpers(t interface {
 				}
 				rsp.set("leave", st.pol)
 				called = true
-				if _, ok := call(what, func() string { return fmt.Sprint("err=", ch.Leave(ctx, "bye")) }); !ok {
+				out, ok := call(what, func() string { return fmt.Sprint("err=", ch.Leave(ctx, "bye")) })
+				if !ok {
 					cancel()
 					return
+				}
+				if st.pol == "silent" && out == "err=<nil>" {
+					fail("%s: Leave returned nil although the room has not said anything about it (neither an unavailable presence nor an error followed the leave presence)", what)
 				}
 			}
 			if st.pol == "error-split" && called {
